@@ -30,7 +30,7 @@ ASSUMPTIONS = [
     "saved gml/dot files: vertices are numbered by increasing identifier, each side on its own for bipartite graphs; a file of a directed graph must be marked directed",
     "sizes: at most 9 vertices per side / 16 vertices for grids and trees; a defect that needs larger graphs is out of reach",
     "position of `save`: the help texts (cnfgen --help-simple / --help-bipartite / --help-dag, docstring of cnfgen/clitools/graph_args.py) list `save` among the options that 'may follow' the construction or file, 'for reproducibility', storing 'the graph generated', and say nothing about its place among the modifiers: wherever it is written, the saved file must hold the final graph, the one the formula is built from",
-    "graphs read from files: the files are written by the harness (vlib/rd_graphs.py writers; gml/dot documents with identifiers 1..N, left side first), at most 7 vertices / 4 per side; file names never contain a newline (the unchanged tree copies the file name into the comment line of a saved kthlist file, which a newline breaks) and, for a bipartite graph saved as dot, never a double quote (the unchanged tree copies the file name into the graph id of the DOT file without escaping it: `cnfgen php 'a\"b.matrix' save out.dot` writes a DOT file that cannot be parsed; reported, not checked); non-ASCII letters in the comment lines of saved kthlist/dimacs files are ignored by the reference readers; the digraph type has no formula on the command line and is only reached through make_graph_from_spec",
+    "graphs read from files: the files are written by the harness (vlib/rd_graphs.py writers; gml/dot documents with identifiers 1..N, left side first), at most 7 vertices / 4 per side; file names never contain a newline (the unchanged tree copies the file name into the comment line of a saved kthlist file, which a newline breaks); non-ASCII letters in the comment lines of saved kthlist/dimacs files are ignored by the reference readers; the digraph type has no formula on the command line and is only reached through make_graph_from_spec",
 ]
 
 _TMP = {}
@@ -1059,9 +1059,6 @@ def _file_case(rnd, k, rep, gtype, ifmt, ofmt, via):
     form = 'ext' if (k + rep) % 2 == 0 else 'fmt'
     idx = 5 * k + rep
     stem = FILE_STEMS[idx % len(FILE_STEMS)]
-    while gtype == 'bipartite' and ofmt == 'dot' and '"' in stem:        # see ASSUMPTIONS
-        idx += 1
-        stem = FILE_STEMS[idx % len(FILE_STEMS)]
     if form == 'ext':
         name = stem + '.' + ifmt
     else:
